@@ -26,8 +26,9 @@ MANIFEST = {
             "body-coil estimation; and for call histories on persistent objects (a memoising operator is transparent iff its key "
             "determines the result; the k-space-only key leaks). Tied to the code by translating predicate and both branches of "
             "every torch.where, the composition order of the operators, the plans of ApplyMaskModule / ApplyZeroPadding / "
-            "CreateSamplingMask, a structural-facts table of the ten deciding functions (returns, returns of an input, state "
-            "written, in-place updates of arguments, branches, loops), and the tables of all 51 masking sites under direct/nn "
+            "CreateSamplingMask, a semantic-facts table of the ten deciding functions with private helpers followed (no return "
+            "of an input outside an `is None` guard, no state written, no in-place update of an argument, no condition or loop range "
+            "depending on tensor shape / dtype / values or on the training / grad mode), and the tables of all 51 masking sites under direct/nn "
             "(with per-function counts) and all 12 sites elsewhere in direct/ (no product of unmasked data with a mask) into Lean "
             "(bridge lemmas), and by a bit-level differential correspondence on the real functions, modules, engines (toy "
             "MRIModelEngine, SSL and JSSL engines through their real _do_iteration) and scripted call histories.",
@@ -50,8 +51,9 @@ MANIFEST = {
 TRUSTED = [
     "Lean 4.33 kernel; axioms ⊆ {propext, Classical.choice, Quot.sound}",
     "harness/translate/recipes/c03.py (torch.where predicate/branches and zero-constant dtype, mask_func call, stage order of the masked "
-    "operators, plans of ApplyMaskModule / ApplyZeroPadding / CreateSamplingMask, structural facts of ten functions, site scans of direct/nn "
-    "and of the rest of direct/, state-write scan)",
+    "operators, plans of ApplyMaskModule / ApplyZeroPadding / CreateSamplingMask read by data flow, semantic facts of ten functions, site scans "
+    "of direct/nn and of the rest of direct/, state-write scan; hoisted locals, renames, one-line helpers and private helpers of the same "
+    "module / class are inlined before a site is read, so behaviour-preserving restructuring leaves the generated definitions unchanged)",
     "torch.where and numpy-style broadcasting as encoded by whereWith/srcAt/bIdxR/bShapeR — validated by correspondence; the index "
     "arithmetic itself (bShapeR, bIdxR, unravelR/ravelR) is additionally compared with np.broadcast_shapes / np.broadcast_to / "
     "np.unravel_index on an exhaustive small scope, its inverse laws and the in-range law of broadcast reads are proved (Lemmas/C03)",
